@@ -364,6 +364,11 @@ def r16_3(ctx: Ctx):
     for s in forwarding:
         rels = [_norm_guard(c.ast, lab, counter, cutoff, selfn) for c, lab in s.conds]
         rels = [r for r in rels if r]
+        # a path taken only when NO cutoff is configured (`self._eval_cutoff is None`): the property speaks about a cutoff N
+        no_cutoff = any(isinstance(c.ast, ast.Compare) and len(c.ast.ops) == 1 and is_self_attr(c.ast.left, cutoff, selfn) and isinstance(c.ast.comparators[0], ast.Constant) and c.ast.comparators[0].value is None and ((isinstance(c.ast.ops[0], ast.Is) and lab is True) or (isinstance(c.ast.ops[0], ast.IsNot) and lab is False)) for c, lab in s.conds)
+        if no_cutoff:
+            obs.append(ctx.ob("R16.3", f, s.ret_node, detail=f"forwarding path taken only when {cutoff} is None (no cutoff configured)", construct="fwd-guard:none", trivial=True))
+            continue
         if not any(r in ("<", "!=") for r in rels):
             opaque = not rels and any(_opaque_cond(c.ast, counter, selfn) for c, _ in s.conds)
             obs.append(ctx.ob("R16.3", f, s.ret_node, status=INCONCLUSIVE if opaque else VIOLATION, detail=f"a forwarding path is not guarded by {counter} < {cutoff}" if not opaque else f"cannot relate the conditions on a forwarding path to {counter} < {cutoff}", witness=[f"L{n.lineno}: {n.label[:80]}" for n in s.nodes], construct="fwd-guard:" + ",".join(rels)))
